@@ -189,89 +189,122 @@ func checkOptions(r *evid.Run, layer string, docs []int, want func(s *optState) 
 		return res
 	}
 	drift := map[string]bool{}
-	ch := make(chan *tla.State, 256)
+	replay := func(s *optState) {
+		r.Count("option_sequences_x_entry_points", 1)
+		if s.N%997 == 0 {
+			r.Sample(map[string]any{"options": s.Opts, "op": s.Op, "family": s.Fam, "effect": effString(s.Rule)})
+		}
+		for _, di := range docs {
+			if di == 1 && s.Op == "verify" {
+				continue
+			}
+			got := call(s.Op, s.Fam, s.Opts, di)
+			cancelled := tla.S(s.Rule["k"]) == "cancelled"
+			if cancelled {
+				got = got.cancelledOnly()
+			}
+			desc := fmt.Sprintf("%s (%s) of %s with options %v", s.Op, s.Fam, optDocs[di].name, s.Opts)
+			rec := map[string]any{"options": s.Opts, "op": s.Op, "family": s.Fam, "document": optDocs[di].doc, "got": got}
+			if got.Class == "panic" || got.Class == "hang" {
+				r.Mismatch("options:"+s.Op+":"+got.Class, desc+": "+got.Err, rec)
+				continue
+			}
+			switch layer {
+			case "families":
+				if s.Fam == "root" {
+					md := call(s.Op, "md", s.Opts, di)
+					if cancelled {
+						md = md.cancelledOnly()
+					}
+					if !got.same(md) {
+						rec["from_markdown"] = md
+						r.Mismatch(fmt.Sprintf("options:%s:from-root-differs-from-markdown:%s", s.Op, tla.S(s.Rule["k"])),
+							fmt.Sprintf("%s: From-Root gives %v; From-Markdown gives %v", desc, got, md), rec)
+					}
+				}
+			case "rule":
+				ref := call(s.Op, "md", canonOpts(s.Rule), di)
+				if cancelled {
+					ref = ref.cancelledOnly()
+				}
+				if !got.same(ref) {
+					rec["canonical_options"], rec["canonical_result"] = canonOpts(s.Rule), ref
+					r.Mismatch(fmt.Sprintf("options:%s/%s:result-changed-by-an-option-it-has-no-use-for:%s", s.Op, s.Fam, tla.S(s.Rule["k"])),
+						fmt.Sprintf("%s: gives %v; the options %v, which mean the same, give %v", desc, got, canonOpts(s.Rule), ref), rec)
+				}
+			}
+			// Layer M
+			ref := call(s.Op, "md", canonOpts(s.Code), di)
+			if tla.S(s.Code["k"]) == "cancelled" {
+				ref = ref.cancelledOnly()
+			}
+			if !got.same(ref) {
+				key := s.Op + "/" + s.Fam + "/" + tla.S(s.Code["k"])
+				mu.Lock()
+				first := !drift[key]
+				drift[key] = true
+				mu.Unlock()
+				r.Count("drift_option_states", 1)
+				if first {
+					fmt.Printf("SPEC-DRIFT layer=options %s effect={%s}: got %v; the canonical options %v give %v\n", desc, effString(s.Code), got, canonOpts(s.Code), ref)
+				}
+			}
+		}
+	}
+	ch := make(chan *optState, 256)
 	var wg sync.WaitGroup
 	for i := 0; i < runtime.NumCPU(); i++ {
 		wg.Add(1)
 		go func() {
 			defer wg.Done()
-			for st := range ch {
-				s := optStateOf(st)
-				if s == nil || !want(s) {
-					continue
-				}
-				r.Count("option_sequences_x_entry_points", 1)
-				if s.N%997 == 0 {
-					r.Sample(map[string]any{"options": s.Opts, "op": s.Op, "family": s.Fam, "effect": effString(s.Rule)})
-				}
-				for _, di := range docs {
-					if di == 1 && s.Op == "verify" {
-						continue
-					}
-					got := call(s.Op, s.Fam, s.Opts, di)
-					cancelled := tla.S(s.Rule["k"]) == "cancelled"
-					if cancelled {
-						got = got.cancelledOnly()
-					}
-					desc := fmt.Sprintf("%s (%s) of %s with options %v", s.Op, s.Fam, optDocs[di].name, s.Opts)
-					rec := map[string]any{"options": s.Opts, "op": s.Op, "family": s.Fam, "document": optDocs[di].doc, "got": got}
-					if got.Class == "panic" || got.Class == "hang" {
-						r.Mismatch("options:"+s.Op+":"+got.Class, desc+": "+got.Err, rec)
-						continue
-					}
-					switch layer {
-					case "families":
-						if s.Fam == "root" {
-							md := call(s.Op, "md", s.Opts, di)
-							if cancelled {
-								md = md.cancelledOnly()
-							}
-							if !got.same(md) {
-								rec["from_markdown"] = md
-								r.Mismatch(fmt.Sprintf("options:%s:from-root-differs-from-markdown:%s", s.Op, tla.S(s.Rule["k"])),
-									fmt.Sprintf("%s: From-Root gives %v; From-Markdown gives %v", desc, got, md), rec)
-							}
-						}
-					case "rule":
-						ref := call(s.Op, "md", canonOpts(s.Rule), di)
-						if cancelled {
-							ref = ref.cancelledOnly()
-						}
-						if !got.same(ref) {
-							rec["canonical_options"], rec["canonical_result"] = canonOpts(s.Rule), ref
-							r.Mismatch(fmt.Sprintf("options:%s/%s:result-changed-by-an-option-it-has-no-use-for:%s", s.Op, s.Fam, tla.S(s.Rule["k"])),
-								fmt.Sprintf("%s: gives %v; the options %v, which mean the same, give %v", desc, got, canonOpts(s.Rule), ref), rec)
-						}
-					}
-					// Layer M
-					ref := call(s.Op, "md", canonOpts(s.Code), di)
-					if tla.S(s.Code["k"]) == "cancelled" {
-						ref = ref.cancelledOnly()
-					}
-					if !got.same(ref) {
-						key := s.Op + "/" + s.Fam + "/" + tla.S(s.Code["k"])
-						mu.Lock()
-						first := !drift[key]
-						drift[key] = true
-						mu.Unlock()
-						r.Count("drift_option_states", 1)
-						if first {
-							fmt.Printf("SPEC-DRIFT layer=options %s effect={%s}: got %v; the canonical options %v give %v\n", desc, effString(s.Code), got, canonOpts(s.Code), ref)
-						}
-					}
-				}
+			for s := range ch {
+				replay(s)
 			}
 		}()
 	}
 	res, err := tlcrun.Run(tlcrun.Opts{SpecDir: specDir, Module: "MC_Opt", Cfg: cfg, Timeout: timeout, Dump: true},
-		func(st *tla.State) error { ch <- st; return nil })
-	close(ch)
-	wg.Wait()
+		func(st *tla.State) error {
+			if s := optStateOf(st); s != nil && want(s) {
+				ch <- s
+			}
+			return nil
+		})
 	if err != nil || res.Violated != "" || res.ErrorText != "" || res.Dumped != res.Distinct {
+		close(ch)
+		wg.Wait()
 		r.Broken("TLC MC_Opt/%s: %v %s %s\n%s", cfg, err, res.Violated, res.ErrorText, tail(res))
 		return
 	}
 	r.Count("states", res.Distinct)
 	r.Count("transitions", res.Generated)
 	fmt.Printf("model MC_Opt/%s: %d distinct states, %d generated, %.1fs\n", cfg, res.Distinct, res.Generated, res.Wall.Seconds())
+	// beyond the bound: behaviours sampled by TLC (-simulate), 5 to 9 options from the full alphabet
+	num := 400
+	if r.Tier == "thorough" {
+		num = 4000
+	}
+	sim, err := tlcrun.Run(tlcrun.Opts{SpecDir: specDir, Module: "MC_Opt", Cfg: "MC_Opt_sim.cfg", Workers: 1, Timeout: 10 * time.Minute,
+		Args: []string{"-simulate", fmt.Sprintf("file=obeh,num=%d", num), "-depth", "12", "-seed", fmt.Sprint(r.Seed + 7)}, Collect: "obeh_*"}, nil)
+	if err != nil || len(sim.Files) == 0 {
+		close(ch)
+		wg.Wait()
+		r.Broken("TLC -simulate MC_Opt_sim.cfg: %v (%d behaviours)\n%s", err, len(sim.Files), tail(sim))
+		return
+	}
+	n := 0
+	for _, body := range sim.Files {
+		states, _ := tla.ReadBehaviour(strings.NewReader(body))
+		if len(states) == 0 {
+			continue
+		}
+		last := states[len(states)-1]
+		last.State.N = 1 + n
+		if s := optStateOf(&last.State); s != nil && want(s) {
+			ch <- s
+			n++
+		}
+	}
+	close(ch)
+	wg.Wait()
+	r.Count("simulated_option_behaviours", n)
 }
